@@ -6,6 +6,8 @@
 From Coq Require Import ZArith List.
 From mathcomp Require Import all_ssreflect all_algebra.
 From SV Require Import Names Rep Complex Homology ListMat SnfCount Rank Betti EulerP RepInv Shapes ShapesReach.
+From SV Require EulerAdd.
+
 From SV Require VInv Gen EulerInt.
 
 Theorem C19_chi_def : forall r, eulerCharacteristic r = alt_sum (Zpos xH) (numberOfSimplicesOfOrder r).
@@ -72,3 +74,20 @@ Theorem C19_chi_is_sum_of_signs :
   forall r, pinv r -> eulerCharacteristic r = EulerInt.zsum (fun t => EulerInt.sgn (EulerInt.ord r t)) (simplices r false).
 Proof. exact EulerInt.euler_as_sum. Qed.
 Print Assumptions C19_chi_is_sum_of_signs.
+
+(* ADDITIVE OVER DISJOINT UNIONS: when the simplices of u are those of x and of y (each once), and every simplex
+   has in u the order and the smallest point metric it has in its part, the integral of u is the sum of the two *)
+Theorem C19_integral_is_additive_over_disjoint_unions :
+  forall hp a d u x y, VInv.vinv u -> VInv.vinv x -> VInv.vinv y ->
+  (forall s, containsSimplex u s = true -> exists z, Gen.metric hp u a d s = Ok z) ->
+  (forall s, containsSimplex x s = true -> exists z, Gen.metric hp x a d s = Ok z) ->
+  (forall s, containsSimplex y s = true -> exists z, Gen.metric hp y a d s = Ok z) ->
+  (forall p i, assoc p (r_simp u) = Some (0, i) -> Z.le Z0 (EulerInt.m hp a d u p)) ->
+  (forall p i, assoc p (r_simp x) = Some (0, i) -> Z.le Z0 (EulerInt.m hp a d x p)) ->
+  (forall p i, assoc p (r_simp y) = Some (0, i) -> Z.le Z0 (EulerInt.m hp a d y p)) ->
+  Permutation.Permutation (simplices u false) (simplices x false ++ simplices y false) ->
+  (forall s, In s (simplices x false) -> EulerInt.ord u s = EulerInt.ord x s /\ EulerInt.minm hp a d u s = EulerInt.minm hp a d x s) ->
+  (forall s, In s (simplices y false) -> EulerInt.ord u s = EulerInt.ord y s /\ EulerInt.minm hp a d u s = EulerInt.minm hp a d y s) ->
+  exists zx zy, Gen.integrate hp x a d = Ok zx /\ Gen.integrate hp y a d = Ok zy /\ Gen.integrate hp u a d = Ok (Z.add zx zy).
+Proof. exact EulerAdd.integrate_additive. Qed.
+Print Assumptions C19_integral_is_additive_over_disjoint_unions.
